@@ -227,6 +227,53 @@ def i1(ctx):
                         'the list makes the next read go out of bounds'
                         % (inst(f), 'PyList_GET_ITEM' if raw else short(t), pys[0].callee_name()), c.loc)
     ctx.require(n >= 6, 'only %d list accessor sites inside loops' % n)
+    # raw item arrays: a `PyObject **` taken from a sequence (PySequence_Fast_ITEMS, ->ob_item) is
+    # only valid while nobody resizes the sequence.  Indexing such a pointer inside a loop whose
+    # body runs Python code is a stale read / use-after-free for a list the user can reach -
+    # unless the pointer was taken under a test that admits exact tuples only.
+    for f in live_funcs(prog):
+        if f.body is None:
+            continue
+        ptrs = {}
+        for v in f.body.find('VarDecl'):
+            t_ = (v.type or '')
+            if v.name and v.kids and 'PyObject' in t_ and t_.count('*') >= 2:
+                init = v.kids[-1]
+                srcs = [x for x in init.walk() if (x.kind in CALL_KINDS and (x.callee_name() or '') in
+                                                   ('PySequence_Fast_ITEMS', '_PyList_ITEMS', '_PyTuple_ITEMS'))
+                        or (x.kind == 'MemberExpr' and x.name == 'ob_item')]
+                if srcs:
+                    ptrs[v.name] = (v, srcs[0])
+        if not ptrs:
+            continue
+        parent = enclosing_map(f.body)
+        cfg = cfg_of(f)
+        for s_ in f.body.find('ArraySubscriptExpr'):
+            base = member_path(strip_casts(s_.kids[0])) if s_.kids else None
+            if base not in ptrs:
+                continue
+            loops = [a for a in ancestors(s_, parent) if a.kind in LOOP_KINDS]
+            if not loops:
+                continue
+            pys = [x for x, e, why, tg in eff.effects_in(f, loops[0].kids[-1]) if PY in e]
+            v, src_ = ptrs[base]
+            # taken under a tuple-only test?
+            vn = cfg.cnode_of(v)
+            tuple_only = False
+            for cn in cfg.nodes:
+                if cn.kind == 'cond' and cn.ast is not None and vn is not None and cfg.dominates(cn.idx, vn):
+                    t_ = cn.ast.text(6)
+                    if 'PyTuple_Check' in t_ and 'PyList' not in t_ and \
+                            vn in cfg.forward_reachable([w for (w, lab) in cfg.succ[cn.idx] if lab is True]) and \
+                            vn not in cfg.forward_reachable([w for (w, lab) in cfg.succ[cn.idx] if lab is False]):
+                        tuple_only = True
+            owner = f if not f.is_lambda else prog.funcs.get(f.parent, f)
+            ctx.check('%s/raw-items[%s]' % (short(owner), base), not pys or tuple_only,
+                      '%s: the raw item array `%s` is not read across user code (or is a tuple\'s)' % (inst(f), base),
+                      '%s: `%s[...]` reads a raw item array taken from a sequence before the loop, and the '
+                      'loop body calls back into Python (%s): user code that shrinks or clears a list '
+                      'leaves the pointer dangling - stale object, out-of-bounds read or use-after-free'
+                      % (inst(f), base, pys[0].callee_name() if pys else ''), s_.loc)
 
 
 # ---------------------------------------------------------------------------------------------
@@ -870,6 +917,10 @@ def _fresh(prog, f, e, inits, depth=0):
     if e.kind == 'MemberExpr':
         if e.name in FIELD_SHAPE and _base_is(e, 'Node'):
             return False, 'Node::%s itself' % e.name
+        b = e.kids[0] if e.kids else None
+        t = (e.type or '')
+        if (b is None or b.kind == 'CXXThisExpr') and ('pybind11' in t or 'py::' in t or 'std::vector' in t):
+            return False, 'the treespec\'s own member `%s`' % e.name
         return None, 'member'
     if e.kind == 'ConditionalOperator':
         a = _fresh(prog, f, e.kids[1], inits, depth + 1)
@@ -906,8 +957,24 @@ def a1(ctx):
         inits = local_inits(f)
         rets = [r for r in f.body.walk() if r.kind == 'ReturnStmt' and r.kids and r.kids[0] is not None]
         ctx.require(rets, '%s: no return statement' % inst(f))
+        # locals that are also stored into a member of the treespec are not the caller's alone
+        kept = {}
+        for n_ in f.body.walk():
+            lhs = rhs = None
+            if n_.kind == 'BinaryOperator' and n_.op == '=':
+                lhs, rhs = n_.kids
+            elif n_.kind == 'CXXOperatorCallExpr' and n_.callee_name() == 'operator=' and len(n_.kids) == 3:
+                lhs, rhs = n_.kids[1], n_.kids[2]
+            if lhs is not None and lhs.kind == 'MemberExpr' and \
+                    (not lhs.kids or lhs.kids[0] is None or lhs.kids[0].kind == 'CXXThisExpr'):
+                for x_ in rhs.walk() if rhs is not None else ():
+                    if x_.kind == 'DeclRefExpr' and (x_.ref or {}).get('kind') == 'VarDecl':
+                        kept[x_.ref.get('name')] = lhs.name
         for ri, r in enumerate(rets):
             ok, why = _fresh(prog, f, r.kids[0], inits)
+            rv = member_path(strip_casts(r.kids[0]))
+            if ok is not False and rv in kept:
+                ok, why = False, 'the local `%s`, which is also kept in the member `%s`' % (rv, kept[rv])
             site = '%s/return#%d' % (short(f), ri)
             if ok is None:
                 # scalars (entry(i), type) are not containers of the treespec
@@ -919,6 +986,15 @@ def a1(ctx):
     # bound methods are const or static: no Python-visible method can mutate the node array
     rec = prog.records.get('optree::PyTreeSpec')
     ctx.require(rec is not None, 'record PyTreeSpec not found')
+    # ... which only means something if no data member is exempt from constness
+    for rname in ('optree::PyTreeSpec', 'optree::PyTreeSpec::Node'):
+        r_ = prog.records.get(rname)
+        mf = list(getattr(r_, 'mutable_fields', ())) if r_ is not None else []
+        ctx.check('%s/no-mutable-members' % rname.split('::', 1)[-1], not mf,
+                  '%s has no `mutable` data member: a const method cannot change a treespec' % rname.split('::', 1)[-1],
+                  '%s declares %s `mutable`: const inspection methods can write it, so "bound to a const '
+                  'member" no longer means the treespec is left unchanged (a memo kept there is shared '
+                  'with every caller and every copy)' % (rname.split('::', 1)[-1], mf), None)
     meth = {name: (isc, iss) for name, sig, isc, iss, acc in rec.methods}
     for (owner, name), b in sorted(tab.items(), key=lambda kv: str(kv[0])):
         if owner != 'PyTreeSpec' or not b.target:
